@@ -466,6 +466,10 @@ func checkC13(c *core.Ctx) {
 		builtin := i%4 == 3
 		d0, err := parser.ParseSchema(&ast.Source{Input: src, Name: "s", BuiltIn: builtin})
 		if err != nil {
+			if i < len(trickySchemas) {
+				c.Internal("hand-written type-system document does not parse: %v: %q", err, clip(src, 300))
+				return
+			}
 			continue
 		}
 		if builtin {
